@@ -323,6 +323,46 @@ def boot_and_check(meta: dict, cfg: dict, history: list, prop="C11") -> list[Fai
                             if "UID" in it and SUBJ_KEY in it:
                                 rec["msgs"].append((int(it["UID"]), msgs.cid_of(it[SUBJ_KEY]), sorted(norm_flags(it.get("FLAGS") or []))))
                 state[nm] = rec
+            # -- messages that an in-flight command takes from one mailbox to another (MOVE, RENAME, RENAME INBOX): whichever
+            #    side of the crash, the message exists in the old or the new place, with the flags it had or gets
+            def _all(sig):
+                out = {}
+                for nm_, rec_ in sig.items():
+                    for _u, c_, f_ in rec_.get("msgs", ()):
+                        if c_:
+                            out.setdefault(c_, []).append((nm_, sorted(f_)))
+                return out
+
+            if not meta["acked"]:
+                a_all, b_all = _all(A), _all(B)
+                got_all = {}
+                for nm_, rec_ in state.items():
+                    for _u, c_, f_ in rec_["msgs"]:
+                        if c_:
+                            got_all.setdefault(c_, []).append((nm_, f_))
+                mids_all = [_all(m_) for m_ in meta.get("mids", ())]
+                for c_, places_a in a_all.items():
+                    if c_ not in b_all or c_.startswith("d"):
+                        continue  # removed by the in-flight command, or dropped by the external agent
+                    homes_a = {n_ for n_, _ in places_a}
+                    homes_b = {n_ for n_, _ in b_all[c_]}
+                    if homes_a & homes_b:
+                        continue  # not moved by this command (or copied: the original stays): judged per mailbox below
+                    found = got_all.get(c_, [])
+                    if not found:
+                        fail("C11.acknowledged-message-lost", {"mbox": "moved", "moving": True}, sorted(homes_a | homes_b), None)
+                        continue
+                    okf = [f_ for _n, f_ in places_a] + [f_ for _n, f_ in b_all[c_]]
+                    for m_ in mids_all:
+                        okf += [f_ for _n, f_ in m_.get(c_, ())]
+                    # while the original is still in its old place the copy being made is debris of the unfinished
+                    # command (judged per mailbox below); once the original is gone the new one *is* the message
+                    in_old = [(n_, f_) for n_, f_ in found if n_ in homes_a]
+                    if in_old:
+                        continue
+                    for n_, f_ in found:
+                        if f_ not in okf:
+                            fail("C11.flags-lost", {"mbox": "moved", "moving": True}, okf[:3], f_)
             # -- compare with what was acknowledged ---------------------------------------------------
             lo = B if meta["acked"] else A
             for nm in sorted(set(A) & set(B)):
